@@ -802,6 +802,15 @@ Proof.
   cbn. now rewrite IH.
 Qed.
 
+Lemma lookup_fields (D : list (val * val)) : forall fs : list field,
+  (forall f, In f fs -> lstrip_us (fst f) = fst f) ->
+  map (fun f : field => lookup_kw (lstrip_us (fst f)) D) fs =
+  map (fun n => lookup_kw n D) (map fst fs).
+Proof.
+  induction fs as [|f r IH]; intros H; [reflexivity|]. cbn.
+  rewrite (H f (or_introl eq_refl)). f_equal. apply IH. intros g Hg. apply H. now right.
+Qed.
+
 Theorem asdict_roundtrip_l : forall c vs,
   NoDup (map fst (fields_of E c)) ->
   (forall f, In f (fields_of E c) -> lstrip_us (fst f) = fst f) ->
@@ -829,11 +838,407 @@ Proof.
     assert (Hn : In n ns) by (rewrite <- Hcn; apply in_map_iff; exists (n, x); auto).
     unfold ns in Hn. apply in_map_iff in Hn. destruct Hn as [f [Hf Hinf]].
     exists f. split; [exact Hinf|]. rewrite (Hpub f Hinf), Hf. apply String.eqb_refl. }
-  rewrite Hexp.
-  assert (Hmap : map (fun f : field => lookup_kw (lstrip_us (fst f)) (strkeys (combine ns vs))) (fields_of E c)
-                 = map (fun n => lookup_kw n (strkeys [] ++ strkeys (combine ns vs))) ns).
-  { unfold ns. rewrite map_map. apply map_ext_in. intros f Hin. now rewrite (Hpub f Hin). }
-  rewrite Hmap, lookup_all; [reflexivity | unfold ns; now rewrite map_length | exact Hnd].
+  assert (Hall : all_some (map (fun f : field => lookup_kw (lstrip_us (fst f)) (strkeys (combine ns vs)))
+                               (fields_of E c)) = Some vs).
+  { etransitivity; [apply f_equal; apply (lookup_fields (strkeys (combine ns vs)) (fields_of E c) Hpub)|].
+    apply (lookup_all ns vs []); [unfold ns; now rewrite map_length | exact Hnd]. }
+  cbn beta iota. unfold construct. rewrite Hexp.
+  match goal with |- option_map _ ?t = _ => replace t with (Some vs) by (symmetry; exact Hall) end.
+  reflexivity.
 Qed.
 
 End Theorems2.
+
+(** ** No attrs instance survives the conversion, at any depth (instances the
+    serializer hid inside an opaque value excepted). *)
+
+Fixpoint inst_free (v : val) : bool :=
+  match v with
+  | VI _ _ => false
+  | VL xs | VT _ xs | VS xs | VF xs => forallb inst_free xs
+  | VD _ kvs => forallb (fun kv => match kv with (a, b) => inst_free a && inst_free b end) kvs
+  | _ => true
+  end.
+
+Section NoInstance.
+Variable E : env.
+Variables (retain : bool) (flt : option filter_fn) (df : dkind) (ser : option ser_fn).
+Hypothesis ser_opaque : forall w v r, ser_apply ser w v = Some r -> inst_free r = true.
+
+Definition pairs_free (d : list (val * val)) : Prop :=
+  Forall (fun kv => inst_free (fst kv) = true /\ inst_free (snd kv) = true) d.
+
+Lemma pairs_free_forallb d : pairs_free d ->
+  forallb (fun kv => match kv with (a, b) => inst_free a && inst_free b end) d = true.
+Proof.
+  intros H. apply forallb_forall. intros [a b] Hin.
+  pose proof (proj1 (Forall_forall _ _) H (a, b) Hin) as [Ha Hb]. cbn in Ha, Hb. now rewrite Ha, Hb.
+Qed.
+
+Lemma dict_set_free : forall d k v,
+  pairs_free d -> inst_free k = true -> inst_free v = true -> pairs_free (dict_set d k v).
+Proof.
+  induction d as [|[k' v'] r IH]; intros k v Hd Hk Hv; cbn.
+  - constructor; [split; assumption | constructor].
+  - inversion Hd as [|? ? [Hk' Hv'] Hr]; subst. cbn in Hk', Hv'. destruct (py_eq k' k).
+    + constructor; [split; assumption | assumption].
+    + constructor; [split; assumption | now apply IH].
+Qed.
+
+Lemma dict_of_pairs_free ps : pairs_free ps -> pairs_free (dict_of_pairs ps).
+Proof.
+  unfold dict_of_pairs. intros H.
+  assert (G : forall acc, pairs_free acc ->
+              pairs_free (fold_left (fun d p => dict_set d (fst p) (snd p)) ps acc)).
+  { induction H as [|[k v] r [Hk Hv] _ IH]; intros acc Ha; cbn; [assumption|].
+    apply IH. now apply dict_set_free. }
+  apply G. constructor.
+Qed.
+
+Lemma mk_dict_free dk ps r : pairs_free ps -> mk_dict E dk ps = Some r -> inst_free r = true.
+Proof.
+  intros H Hm. unfold mk_dict in Hm. destruct (forallb _ ps); [|discriminate].
+  inversion Hm; subst. cbn. apply pairs_free_forallb. now apply dict_of_pairs_free.
+Qed.
+
+Lemma dedup_acc_in : forall items acc x,
+  In x (dedup_acc acc items) -> In x acc \/ In x items.
+Proof.
+  induction items as [|y r IH]; intros acc x H; cbn in H; [now left|].
+  destruct (py_mem y acc).
+  - destruct (IH _ _ H); [now left | right; now right].
+  - destruct (IH _ _ H) as [Hin|Hin]; [|right; now right].
+    apply in_app_or in Hin. destruct Hin as [Hin|[<-|[]]]; [now left | right; now left].
+Qed.
+
+Lemma dedup_free items : forallb inst_free items = true -> forallb inst_free (dedup_acc [] items) = true.
+Proof.
+  intros H. apply forallb_forall. intros x Hin.
+  destruct (dedup_acc_in _ _ _ Hin) as [[]|Hi]. exact (proj1 (forallb_forall _ _) H x Hi).
+Qed.
+
+Lemma rebuild_free cf items r :
+  forallb inst_free items = true -> rebuild_collection E cf items = Some r -> inst_free r = true.
+Proof.
+  intros Hi. unfold rebuild_collection. destruct cf as [|[|n|]| |]; cbn; intros H.
+  - inversion H; subst; exact Hi.
+  - inversion H; subst; exact Hi.
+  - destruct (List.length items =? nt_arity E n); inversion H; subst; exact Hi.
+  - inversion H; subst; exact Hi.
+  - unfold mk_set in H. destruct (forallb (hashable E) items); [|discriminate].
+    inversion H; subst. cbn. now apply dedup_free.
+  - unfold mk_frozen in H. destruct (forallb (hashable E) items); [|discriminate].
+    inversion H; subst. cbn. now apply dedup_free.
+Qed.
+
+Lemma seq_conv_free (f : val -> option val) : forall xs items,
+  Forall (fun x => forall r, f x = Some r -> inst_free r = true) xs ->
+  seq_conv f xs = Some items -> forallb inst_free items = true.
+Proof.
+  induction xs as [|x r IH]; intros items HF H; cbn in H.
+  - inversion H; reflexivity.
+  - inversion HF as [|? ? Hx Hr]; subst.
+    destruct (f x) eqn:Ex; [|discriminate]. destruct (seq_conv f r) eqn:Es; [|discriminate].
+    inversion H; subst. cbn. rewrite (Hx _ eq_refl), (IH _ Hr eq_refl). reflexivity.
+Qed.
+
+Lemma pairs_conv_free (fk fv : val -> option val) : forall kvs ps,
+  Forall (fun kv => (forall r, fk (fst kv) = Some r -> inst_free r = true) /\
+                    (forall r, fv (snd kv) = Some r -> inst_free r = true)) kvs ->
+  pairs_conv fk fv kvs = Some ps -> pairs_free ps.
+Proof.
+  induction kvs as [|[k x] r IH]; intros ps HF H; cbn in H.
+  - inversion H; constructor.
+  - inversion HF as [|? ? [Hk Hx] Hr]; subst. cbn in Hk, Hx.
+    destruct (fk k) eqn:Ek; [|discriminate]. destruct (fv x) eqn:Ex; [|discriminate].
+    destruct (pairs_conv fk fv r) eqn:Es; [|discriminate].
+    inversion H; subst. constructor; [split; cbn; eauto | eapply IH; eauto].
+Qed.
+
+Lemma fields_loop_free {B} keep (conv : field -> val -> option B) (Q : B -> Prop) : forall vs fs out,
+  Forall (fun v => forall f r, conv f v = Some r -> Q r) vs ->
+  fields_loop keep conv fs vs = Some out -> Forall (fun nv => Q (snd nv)) out.
+Proof.
+  induction vs as [|v r IH]; intros fs out HF H.
+  - destruct fs; cbn in H; inversion H; constructor.
+  - destruct fs as [|f fs']; cbn in H; [inversion H; constructor|].
+    inversion HF as [|? ? Hv Hr]; subst. destruct (keep f v).
+    + destruct (conv f v) eqn:Ec; [|discriminate].
+      destruct (fields_loop keep conv fs' r) eqn:El; [|discriminate].
+      inversion H; subst. constructor; [cbn; eauto | eapply IH; eauto].
+    + eapply IH; eauto.
+Qed.
+
+Notation any k := (asdict_anything E k retain flt df ser).
+Notation fld := (asdict_field E (any false) (fun k => any k) true retain df ser).
+
+Definition frees (v : val) : Prop :=
+  (forall k r, any k v = Some r -> inst_free r = true) /\
+  (forall c f r, fld c f v = Some r -> inst_free r = true).
+
+Lemma frees_leaf v : is_leaf v = true -> frees v.
+Proof.
+  intros Hl. split.
+  - intros k r H. assert (H' : Some (ser_value ser None v) = Some r)
+      by (destruct v; try discriminate; exact H).
+    inversion H'; subst. unfold ser_value. destruct (ser_apply ser None v) eqn:Es.
+    + eapply ser_opaque; eauto.
+    + destruct v; try discriminate; reflexivity.
+  - intros c f r H. unfold asdict_field in H.
+    destruct (ser_apply ser (Some (c, fst f)) v) eqn:Es.
+    + inversion H; subst. eapply ser_opaque; eauto.
+    + assert (H' : Some v = Some r) by (destruct v; try discriminate; exact H).
+      inversion H'; subst. destruct r; try discriminate; reflexivity.
+Qed.
+
+Lemma frees_seq (v : val) (xs : list val) :
+  (v = VL xs \/ (exists t, v = VT t xs) \/ v = VS xs \/ v = VF xs) ->
+  Forall frees xs -> frees v.
+Proof.
+  intros Hv HF.
+  assert (Hmem : forall k, Forall (fun x => forall r, any k x = Some r -> inst_free r = true) xs).
+  { intros k. clear Hv. induction HF as [|x r [Hx _] _ IH]; [constructor|]. constructor; [apply Hx | exact IH]. }
+  split.
+  - intros k r H.
+    assert (H' : match seq_conv (any k) xs with
+                 | Some items => rebuild_collection E (if retain then class_of_seq v
+                                   else if k then CfTuple TkT else CfList) items
+                 | None => None end = Some r)
+      by (destruct Hv as [-> | [[t ->] | [-> | ->]]]; exact H).
+    destruct (seq_conv (any k) xs) as [items|] eqn:Es; [|discriminate].
+    eapply rebuild_free; [|exact H']. eapply seq_conv_free; [apply Hmem | exact Es].
+  - intros c f r H. unfold asdict_field in H.
+    destruct (ser_apply ser (Some (c, fst f)) v) eqn:Es.
+    { inversion H; subst. eapply ser_opaque; eauto. }
+    assert (H' : match seq_conv (any false) xs with
+                 | Some items => rebuild_collection E (if retain then class_of_seq v else CfList) items
+                 | None => None end = Some r)
+      by (destruct Hv as [-> | [[t ->] | [-> | ->]]]; exact H).
+    destruct (seq_conv (any false) xs) as [items|] eqn:Ec; [|discriminate].
+    eapply rebuild_free; [|exact H']. eapply seq_conv_free; [apply Hmem | exact Ec].
+Qed.
+
+Theorem anything_frees : forall v, frees v.
+Proof.
+  induction v as [t i | s | c fs IH | xs IH | t xs IH | xs IH | xs IH | dk kvs IH | w x IH | ]
+    using val_ind'; try (apply frees_leaf; reflexivity).
+  - (* instance *)
+    assert (Hany : forall k r, any k (VI c fs) = Some r -> inst_free r = true).
+    { intros k r H. cbn [asdict_anything] in H. unfold asdict_body in H.
+      destruct (fields_loop _ _ _ _) as [assigns|] eqn:El; [|discriminate].
+      inversion H; subst. unfold record. cbn [inst_free]. apply pairs_free_forallb.
+      apply dict_of_pairs_free.
+      assert (Hout : Forall (fun nv : string * val => inst_free (snd nv) = true) assigns).
+      { eapply (fields_loop_free (passes flt) (fld c) (fun r => inst_free r = true)); [|exact El].
+        clear -IH. induction IH as [|x r [_ Hx] _ IHr]; [constructor|]. constructor; [apply Hx | exact IHr]. }
+      clear -Hout. induction Hout as [|[n x] r Hx _ IHr]; [constructor|]. constructor; [split; [reflexivity | exact Hx] | exact IHr]. }
+    split; [exact Hany|].
+    intros c0 f r H. unfold asdict_field in H.
+    destruct (ser_apply ser (Some (c0, fst f)) (VI c fs)) eqn:Es.
+    + inversion H; subst. eapply ser_opaque; eauto.
+    + eapply Hany; eauto.
+  - apply (frees_seq (VL xs) xs); auto.
+  - apply (frees_seq (VT t xs) xs); auto. right; left; eexists; reflexivity.
+  - apply (frees_seq (VS xs) xs); auto.
+  - apply (frees_seq (VF xs) xs); auto.
+  - (* dict *)
+    assert (Hd : forall r, match pairs_conv (any true) (any false) kvs with
+                           | Some ps => mk_dict E df ps | None => None end = Some r ->
+                           inst_free r = true).
+    { intros r H. destruct (pairs_conv _ _ kvs) as [ps|] eqn:Ep; [|discriminate].
+      eapply mk_dict_free; [|exact H]. eapply pairs_conv_free; [|exact Ep].
+      clear -IH. induction IH as [|[a b] r [[Ha _] [Hb _]] _ IHr]; [constructor|]. constructor; [|exact IHr].
+      split; cbn; [apply Ha | apply Hb]. }
+    split.
+    + intros k r H. apply Hd. exact H.
+    + intros c f r H. unfold asdict_field in H.
+      destruct (ser_apply ser (Some (c, fst f)) (VD dk kvs)) eqn:Es.
+      * inversion H; subst. eapply ser_opaque; eauto.
+      * apply Hd. exact H.
+Qed.
+
+End NoInstance.
+
+Theorem no_instance_left_l : forall E retain flt df ser,
+  (forall w v r, ser_apply ser w v = Some r -> inst_free r = true) ->
+  forall inst r, asdict E true retain flt df ser inst = Some r -> inst_free r = true.
+Proof.
+  intros E retain flt df ser Hs inst r H. destruct inst; try discriminate.
+  exact (proj1 (anything_frees E retain flt df ser Hs (VI c fs)) false r H).
+Qed.
+
+(** ** Non-vacuity: a concrete environment and nested value on which the
+    premises of the theorems hold and the functions really convert. *)
+Module Ex.
+Open Scope string_scope.
+
+Definition exE : env :=
+  {| fields_of := fun c => match c with 0 => [("x", 0); ("_y", 1)] | 1 => [("a", 2)] | _ => [] end;
+     cls_hashable := fun c => Nat.eqb c 2;
+     nt_arity := fun n => match n with 0 => 2 | _ => 1 end |}.
+
+(** [C0(x=[C1(1), NT(2, C1("s"))], _y=OrderedDict({(1, frozenset({2})): C1({3})}))] *)
+Definition exV : val :=
+  VI 0 [VL [VI 1 [VSc 0 1]; VT (TkN 0) [VSc 0 2; VI 1 [VStr "s"]]];
+        VD DkO [(VT TkT [VSc 0 1; VF [VSc 0 2]], VI 1 [VS [VSc 0 3]])]].
+
+Example ex_names_distinct : forall c, NoDup (map fst (fields_of exE c)).
+Proof.
+  intros [|[|c]]; cbn.
+  - constructor; [cbn; intros [H|[]]; discriminate | constructor; [intros [] | constructor]].
+  - constructor; [intros [] | constructor].
+  - constructor.
+Qed.
+
+Example ex_wf : wf exE exV = true.
+Proof. reflexivity. Qed.
+
+Example ex_asdict :
+  asdict exE true false None DkD None exV =
+  Some (VD DkD
+          [(VStr "x", VL [VD DkD [(VStr "a", VSc 0 1)];
+                          VL [VSc 0 2; VD DkD [(VStr "a", VStr "s")]]]);
+           (VStr "_y", VD DkD [(VT TkT [VSc 0 1; VT TkT [VSc 0 2]],
+                                VD DkD [(VStr "a", VL [VSc 0 3])])])]).
+Proof. reflexivity. Qed.
+
+Example ex_asdict_retain :
+  asdict exE true true None DkS None exV =
+  Some (VD DkS
+          [(VStr "x", VL [VD DkS [(VStr "a", VSc 0 1)];
+                          VT (TkN 0) [VSc 0 2; VD DkS [(VStr "a", VStr "s")]]]);
+           (VStr "_y", VD DkS [(VT TkT [VSc 0 1; VF [VSc 0 2]],
+                                VD DkS [(VStr "a", VS [VSc 0 3])])])]).
+Proof. reflexivity. Qed.
+
+Example ex_astuple :
+  astuple exE true true None TfTuple exV =
+  Some (VT TkT [VL [VT TkT [VSc 0 1]; VT (TkN 0) [VSc 0 2; VI 1 [VStr "s"]]];
+                VD DkO [(VT TkT [VSc 0 1; VF [VSc 0 2]], VT TkT [VS [VSc 0 3]])]]).
+Proof. reflexivity. Qed.
+
+(** filter drops [x]; the serializer wraps leaves only (inside the key too). *)
+Example ex_filter_serializer :
+  asdict exE true false (Some (fun f _ => negb (String.eqb (fst f) "x"))) DkD
+         (Some (fun w v => if is_leaf v then Some (VW w v) else None)) exV =
+  Some (VD DkD
+          [(VStr "_y", VD DkD [(VT TkT [VW None (VSc 0 1); VT TkT [VW None (VSc 0 2)]],
+                                VD DkD [(VStr "a", VL [VW None (VSc 0 3)])])])]).
+Proof. reflexivity. Qed.
+
+(** Outside the property's domain: an instance inside a set becomes an
+    unhashable dict — TypeError. *)
+Example ex_instance_in_set_raises :
+  asdict exE true true None DkD None (VI 1 [VS [VI 2 []]]) = None.
+Proof. reflexivity. Qed.
+
+Example ex_roundtrip : roundtrip exE 1 [VSc 0 7] = Some (VI 1 [VSc 0 7]).
+Proof. reflexivity. Qed.
+
+(** The "public names" premise of the round trip is needed: the key of a
+    private field is its name, the init argument its alias. *)
+Example ex_roundtrip_private_name : roundtrip exE 0 [VSc 0 7; VSc 0 8] = None.
+Proof. reflexivity. Qed.
+
+End Ex.
+
+(** ** The comparison used by the correspondence check ([C13/Corr.v]). *)
+From Attrs Require Import Base C13.Corr.
+
+Fixpoint set_free (v : val) : bool :=
+  match v with
+  | VS _ | VF _ | VAlien => false
+  | VI _ xs | VL xs | VT _ xs => forallb set_free xs
+  | VD _ kvs => forallb (fun kv => match kv with (a, b) => set_free a && set_free b end) kvs
+  | VW _ x => set_free x
+  | _ => true
+  end.
+
+Definition seq_eqb := fix go (xs ys : list val) {struct xs} : bool :=
+  match xs, ys with
+  | [], [] => true
+  | x :: xs', y :: ys' => val_eqb x y && go xs' ys'
+  | _, _ => false
+  end.
+
+Lemma seq_eqb_eq : forall xs ys,
+  Forall (fun x => set_free x = true -> forall y, val_eqb x y = true -> x = y) xs ->
+  forallb set_free xs = true -> seq_eqb xs ys = true -> xs = ys.
+Proof.
+  induction xs as [|x r IH]; intros ys HF Hs H; destruct ys as [|y ys]; try discriminate; [reflexivity|].
+  cbn in H, Hs. apply andb_true_iff in H as [H1 H2]. apply andb_true_iff in Hs as [S1 S2].
+  inversion HF as [|? ? Hx Hr]; subst. f_equal; [now apply Hx | now apply IH].
+Qed.
+
+Lemma tkind_eqb_eq a b : tkind_eqb a b = true -> a = b.
+Proof. destruct a, b; cbn; try discriminate; try reflexivity. intros H. apply Nat.eqb_eq in H. now subst. Qed.
+Lemma dkind_eqb_eq a b : dkind_eqb a b = true -> a = b.
+Proof. destruct a, b; cbn; try discriminate; reflexivity. Qed.
+
+(** On results without sets the comparison is plain equality (with sets it is
+    equality up to the order of members). *)
+Theorem val_eqb_exact_l : forall a, set_free a = true -> forall b, val_eqb a b = true -> a = b.
+Proof.
+  induction a as [t i | s | c fs IH | xs IH | t xs IH | xs IH | xs IH | dk kvs IH | w x IH | ]
+    using val_ind'; intros Hs b H; destruct b; try discriminate.
+  - cbn in H. apply andb_true_iff in H as [H1 H2].
+    apply Nat.eqb_eq in H1, H2. now subst.
+  - cbn in H. apply String.eqb_eq in H. now subst.
+  - cbn in H. apply andb_true_iff in H as [H1 H2]. apply Nat.eqb_eq in H1. subst.
+    f_equal. apply seq_eqb_eq; auto.
+  - cbn in H. f_equal. apply seq_eqb_eq; auto.
+  - cbn in H. apply andb_true_iff in H as [H1 H2]. apply tkind_eqb_eq in H1. subst.
+    f_equal. apply seq_eqb_eq; auto.
+  - cbn in H. apply andb_true_iff in H as [H1 H2]. apply dkind_eqb_eq in H1. subst. f_equal.
+    cbn in Hs. clear -IH Hs H2. revert kvs0 H2.
+    induction IH as [|[a b] r [Ha Hb] _ IHr]; intros [|[a' b'] r'] H2; try discriminate; [reflexivity|].
+    cbn in Hs. apply andb_true_iff in Hs as [Hab Hr]. apply andb_true_iff in Hab as [Sa Sb].
+    apply andb_true_iff in H2 as [H2 H3]. apply andb_true_iff in H2 as [Ea Eb].
+    cbn in Ha, Hb. rewrite (Ha Sa _ Ea), (Hb Sb _ Eb). f_equal. now apply IHr.
+  - cbn in H. apply andb_true_iff in H as [H1 H2]. f_equal.
+    + destruct w as [[c s]|], w0 as [[c' s']|]; cbn in H1; try discriminate; [|reflexivity].
+      apply andb_true_iff in H1 as [A B]. apply Nat.eqb_eq in A. apply String.eqb_eq in B. now subst.
+    + now apply IH.
+Qed.
+
+Theorem check_case_exact_l : forall c r,
+  check_case c = true -> run_faithful c = Some r -> set_free r = true ->
+  c_seen c = Some r /\ run_ideal c = Some r.
+Proof.
+  intros c r H Hf Hs. unfold check_case in H. apply andb_true_iff in H as [H1 H2].
+  rewrite Hf in H1. unfold res_eqb, option_eqb in H1.
+  destruct (c_seen c) as [s|] eqn:Es; [|discriminate].
+  apply (val_eqb_exact_l r Hs) in H1. subst s. split; [reflexivity|].
+  unfold res_eqb, option_eqb in H2. destruct (run_ideal c) as [i|]; [|discriminate].
+  (* val_eqb i r with r set-free: compare structurally from the other side *)
+  assert (Hsym : forall a, set_free a = true -> forall b, val_eqb b a = true -> b = a).
+  { clear. induction a as [t i | s | c fs IH | xs IH | t xs IH | xs IH | xs IH | dk kvs IH | w x IH | ]
+      using val_ind'; intros Hs b H; destruct b; try discriminate.
+    - cbn in H. apply andb_true_iff in H as [H1 H2]. apply Nat.eqb_eq in H1, H2. now subst.
+    - cbn in H. apply String.eqb_eq in H. now subst.
+    - cbn in H. apply andb_true_iff in H as [H1 H2]. apply Nat.eqb_eq in H1. subst. f_equal.
+      cbn in Hs. clear -IH Hs H2. revert fs0 H2.
+      induction IH as [|x r Hx _ IHr]; intros [|y ys] H2; try discriminate; [reflexivity|].
+      cbn in Hs, H2. apply andb_true_iff in Hs as [S1 S2]. apply andb_true_iff in H2 as [E1 E2].
+      f_equal; [now apply Hx | now apply IHr].
+    - cbn in H. f_equal. cbn in Hs. clear -IH Hs H. revert xs0 H.
+      induction IH as [|x r Hx _ IHr]; intros [|y ys] H2; try discriminate; [reflexivity|].
+      cbn in Hs, H2. apply andb_true_iff in Hs as [S1 S2]. apply andb_true_iff in H2 as [E1 E2].
+      f_equal; [now apply Hx | now apply IHr].
+    - cbn in H. apply andb_true_iff in H as [H1 H2]. apply tkind_eqb_eq in H1. subst. f_equal.
+      cbn in Hs. clear -IH Hs H2. revert xs0 H2.
+      induction IH as [|x r Hx _ IHr]; intros [|y ys] H2; try discriminate; [reflexivity|].
+      cbn in Hs, H2. apply andb_true_iff in Hs as [S1 S2]. apply andb_true_iff in H2 as [E1 E2].
+      f_equal; [now apply Hx | now apply IHr].
+    - cbn in H. apply andb_true_iff in H as [H1 H2]. apply dkind_eqb_eq in H1. subst. f_equal.
+      cbn in Hs. clear -IH Hs H2. revert kvs0 H2.
+      induction IH as [|[a b] r [Ha Hb] _ IHr]; intros [|[a' b'] r'] H2; try discriminate; [reflexivity|].
+      cbn in Hs. apply andb_true_iff in Hs as [Hab Hr]. apply andb_true_iff in Hab as [Sa Sb].
+      apply andb_true_iff in H2 as [H2 H3]. apply andb_true_iff in H2 as [Ea Eb].
+      cbn in Ha, Hb. rewrite (Ha Sa _ Ea), (Hb Sb _ Eb). f_equal. now apply IHr.
+    - cbn in H. apply andb_true_iff in H as [H1 H2]. f_equal.
+      + destruct w as [[c s]|], w0 as [[c' s']|]; cbn in H1; try discriminate; [|reflexivity].
+        apply andb_true_iff in H1 as [A B]. apply Nat.eqb_eq in A. apply String.eqb_eq in B. now subst.
+      + now apply IH. }
+  f_equal. now apply Hsym.
+Qed.
